@@ -1044,6 +1044,53 @@ def _value_sites(c1: ast.FunctionDef) -> dict:
     return {'sites': S.sites, 'subst_defaults': S.subst_defaults}
 
 
+# ---------------------------------------------------------------------------------------------- visible objects, ID maps
+def _visibility_and_ids(c1: ast.FunctionDef, fk: ast.FunctionDef) -> dict:
+    """`for old_brush in file.vmf.brushes` / `for old_ent in file.vmf.entities`: the guard that skips hidden objects, that
+    nothing else skips one, and that both copies and the SIDE_LIST branch of fixup_key use the same face-ID map."""
+    def loop(attr: str) -> ast.For:
+        found = [n for n in ast.walk(c1) if isinstance(n, ast.For) and ast.unparse(n.iter) == f'file.vmf.{attr}']
+        if len(found) != 1:
+            raise TranslateError(f'collapse_one: expected exactly one loop over file.vmf.{attr}')
+        return found[0]
+
+    def guard(lp: ast.For, var: str, tests: tuple[str, ...]) -> tuple[bool, bool]:
+        first = lp.body[0]
+        skips = isinstance(first, ast.If) and ast.unparse(first.test) in tests and len(first.body) == 1 \
+            and isinstance(first.body[0], ast.Continue) and not first.orelse
+        # no other way to leave an iteration early / to drop a copy
+        others = [n for st in lp.body[(1 if skips else 0):] for n in ast.walk(st)
+                  if isinstance(n, (ast.Continue, ast.Break, ast.Return)) and _innermost_loop(lp, n) is lp]
+        return skips, not others
+    wb, eb = loop('brushes'), loop('entities')
+    w_skip, w_only = guard(wb, 'old_brush', ('old_brush.hidden or not old_brush.vis_shown', 'not old_brush.vis_shown or old_brush.hidden'))
+    e_skip, e_only = guard(eb, 'old_ent', ('visgroup is False and (old_ent.hidden or not old_ent.vis_shown)',
+                                           'visgroup is False and (not old_ent.vis_shown or old_ent.hidden)'))
+    adds = {'vmf.add_brush(new_brush)': wb, 'vmf.add_ent(new_ent)': eb}
+    added = all(any(isinstance(st, ast.Expr) and ast.unparse(st.value) == call for st in lp.body) for call, lp in adds.items())
+    copies = [n for n in ast.walk(c1) if isinstance(n, ast.Call) and isinstance(n.func, ast.Attribute) and n.func.attr == 'copy'
+              and ast.unparse(n.func.value) in ('old_brush', 'old_ent')]
+    same_map = len(copies) == 2 and all({k.arg: ast.unparse(k.value) for k in c.keywords}.get('side_mapping') == 'inst.face_ids' for c in copies)
+    to_target = len(copies) == 2 and all({k.arg: ast.unparse(k.value) for k in c.keywords}.get('vmf_file') == 'vmf' for c in copies)
+    sl = [nd for nms, nd in _fixup_key_branches(fk) if 'SIDE_LIST' in nms]
+    sl_nodes = [n for st in (sl[0].body if len(sl) == 1 else []) for n in ast.walk(st)]
+    reads_map = any(isinstance(n, ast.Subscript) and ast.unparse(n.value) == 'self.face_ids' for n in sl_nodes) \
+        and not any(isinstance(n, ast.Attribute) and n.attr.endswith('_ids') and n.attr != 'face_ids' for n in sl_nodes)
+    return {'hidden_world_brushes_skipped': w_skip, 'world_brush_loop_skips_nothing_else': w_only,
+            'hidden_entities_skipped_when_visgroups_stripped': e_skip, 'entity_loop_skips_nothing_else': e_only,
+            'copies_added_to_target': added and to_target, 'face_ids_shared_by_copies': same_map, 'side_lists_read_face_ids': reads_map}
+
+
+def _innermost_loop(root: ast.For, node: ast.AST):
+    """The innermost for/while loop inside [root] (inclusive) that contains [node]."""
+    best = None
+    for lp in ast.walk(root):
+        if isinstance(lp, (ast.For, ast.While)) and any(n is node for n in ast.walk(lp)):
+            if best is None or any(n is lp for n in ast.walk(best)):
+                best = lp
+    return best
+
+
 # ---------------------------------------------------------------------------------------------- what localise writes
 def _write_modes(before: dict[str, Any], after: SObj, cls: str) -> list[tuple[str, str, str]]:
     """For every field of a symbolic object: was the object it refers to modified in place, re-bound, or left alone?"""
@@ -1380,6 +1427,11 @@ def translate() -> tuple[str, dict]:
         else:
             raise TranslateError(f'collapse_one line {line}: `{recv}.copy()` on a template object of unknown class (from `{src}`)')
     side['copied_classes'] = copied
+    # which template objects are copied at all: the guards at the head of the two copying loops, and the ID maps they share
+    vis = _visibility_and_ids(c1, fk)
+    side['visibility_and_ids'] = vis
+    for k, val in vis.items():
+        E.lines.append(f'Definition g_collapse_{k} : bool := {"true" if val else "false"}.')
     E.lines.append('Definition g_collapse_copied_classes : list string := [' + '; '.join(f'"{c}"' for c in copied) + '].')
     E.lines.append('Definition g_collapse_template_method_calls : list (list N) := [' + '; '.join(_coq_codes(c[1]) for c in cen['calls']) + '].')
     E.lines.append(f'Definition g_collapse_template_stores : nat := {len(cen["stores"])}.')
